@@ -1,7 +1,7 @@
 //@unit C16_polypathd
 //@props C16 C04
 //@safetyprops C14
-//@desc PolyPathD's constructor from an integer path (how every node of a PolyTreeD gets its polygon): the node inherits its parent's scale (1.0 for a node without parent) and its polygon is ScalePath<double, int64_t>(path, that scale) - the very path it was given, descaled once with the tree's scale (ClipperD sets the root's scale to invScale_, C16_clipperd); the parent link is the given parent.
+//@desc PolyPathD's constructor from an integer path (how every node of a PolyTreeD gets its polygon): the node inherits its parent's scale (1.0 for a node without parent) and its polygon is ScalePath<double, int64_t>(path, that scale) - the very path it was given, descaled once with the tree's scale (ClipperD sets the root's scale to invScale_, C16_clipperd); the parent link is the given parent. PolyPathD::Clear / PolyPath64::Clear remove the children and NOTHING else (frame checked): in particular a cleared PolyTreeD keeps the scale ClipperD gave it.
 #include "vf.h"
 typedef struct { long tok; } PathTok;
 typedef struct PolyPathD PolyPathD;
@@ -20,6 +20,29 @@ __CPROVER_ensures(self->scale_ == (parent ? parent->scale_ : 1.0) && self->paren
 __CPROVER_ensures(g_sp_n == 1 && g_sp_path == path.tok && g_sp_scale == self->scale_ && self->polygon_.tok == g_sp_ret)
 __CPROVER_assigns(*self, g_sp_n, g_sp_path, g_sp_scale)
 //@end
+/* ---------- PolyPathD::Clear / PolyPath64::Clear: only the children go ---------- */
+typedef struct { size_t size; } ChildsObs;
+typedef struct { void* parent_; double scale_; PathTok polygon_; ChildsObs childs_; } PolyPathDS;
+typedef struct { void* parent_; PathTok polygon_; ChildsObs childs_; } PolyPath64S;
+//@extract file=CPP/Clipper2Lib/include/clipper2/clipper.engine.h func=Clear scope=PolyPathD as=PolyPathD_Clear self=PolyPathDS
+//@sub /self->childs_\.resize\(0\);/self->childs_.size = 0;/ min=0
+//@sub /self->polygon_\.clear\(\);/self->polygon_.tok = 0;/ min=0
+__CPROVER_requires(__CPROVER_is_fresh(self, sizeof(*self)))
+__CPROVER_ensures(self->childs_.size == 0)
+/* frame: the node keeps its scale (ClipperD::Execute sets it BEFORE BuildTreeD clears the tree again), its polygon and its parent */
+__CPROVER_assigns(self->childs_)
+//@end
+//@extract file=CPP/Clipper2Lib/include/clipper2/clipper.engine.h func=Clear scope=PolyPath64 as=PolyPath64_Clear self=PolyPath64S
+//@sub /self->childs_\.resize\(0\);/self->childs_.size = 0;/ min=0
+//@sub /self->polygon_\.clear\(\);/self->polygon_.tok = 0;/ min=0
+__CPROVER_requires(__CPROVER_is_fresh(self, sizeof(*self)))
+__CPROVER_ensures(self->childs_.size == 0)
+__CPROVER_assigns(self->childs_)
+//@end
+void h_ClearD(void) { PolyPathDS* s; PolyPathD_Clear(s); VF_CANARY(); }
+void h_Clear64(void) { PolyPath64S* s; PolyPath64_Clear(s); VF_CANARY(); }
 void h_PPD(void) { PolyPathD* s; PolyPathD* p; PathTok t; PolyPathD_construct(s, p, t); VF_CANARY(); }
 //@run name=PolyPathD.ctor entry=h_PPD enforce=PolyPathD_construct replace=vf_ScalePath flags="--bounds-check --pointer-check" timeout=60
 //@assume A5 (C16_polypathd): ScalePath is a logging stub (C16_scalepath covers the int64<-double direction; the double<-int64 instantiation multiplies by the scale in double); the base-class initialiser PolyPath(parent) is rewritten to parent_ = parent (its one-line definition is pinned by an expect fact).
+//@run name=PolyPathD.Clear entry=h_ClearD enforce=PolyPathD_Clear flags="--bounds-check --pointer-check" timeout=60
+//@run name=PolyPath64.Clear entry=h_Clear64 enforce=PolyPath64_Clear flags="--bounds-check --pointer-check" timeout=60
